@@ -145,9 +145,15 @@ def gen_plan(seed: int, cls: str) -> dict:
     if ro.random() < 0.04:
         # a document far larger than any buffer or chunk size in the stack (64 KiB .. 300 KiB)
         n = ro.choice([3000, 9000, 20000])
-        kind = ro.choice(['ints', 'strs', 'map'])
+        kind = ro.choice(['ints', 'strs', 'map', 'unistrs', 'unistrs'])
         if kind == 'ints':
             values.append({'t': ['list', ['s', 'int']], 'data': [((i * 7919) % 100003) - 50000 for i in range(n)], 'custom': None, 'big': True})
+        elif kind == 'unistrs':
+            # dense multi-byte text with an irregular period: some character straddles every block boundary
+            words = ['é', '日本', '\U0001f600', 'ü-ß', 'Ω≈', 'aé', 'ab', 'x']
+            pad = 'y' * ro.randrange(7)
+            values.append({'t': ['list', ['s', 'str']], 'data': [pad] + [words[(i * 5 + i // 7) % len(words)] for i in range(n)],
+                           'custom': None, 'big': True})
         elif kind == 'strs':
             words = tg.ASCII_WORDS + (tg.UNI_WORDS if knobs['alphabet'] != 'ascii' else [])
             values.append({'t': ['list', ['s', 'str']], 'data': [words[(i * 31) % len(words)] + str(i % 97) for i in range(n)], 'custom': None, 'big': True})
@@ -202,6 +208,16 @@ def gen_plan(seed: int, cls: str) -> dict:
         chain.append({'op': 'read_all', 'src': sink, 'via': ro.choice(['func', 'method']), 'pathkind': ro.choice(PATHKINDS)})
         pos = ro.randrange(len(ops) + 1)
         ops[pos:pos] = chain
+    if values and values[-1].get('big'):
+        # make sure the big document actually travels: written to a path and a stream, and read back
+        bi = len(values) - 1
+        for sink in ([ro.choice(SINKS_PATH)] + ([ro.choice(SINKS_STREAM)] if cls != 'realdisk' and ro.random() < 0.5 else [])):
+            fmt = ro.choice(knobs['fmts'])
+            pos = ro.randrange(len(ops) + 1)
+            ops[pos:pos] = [{'op': 'write', 'sink': sink, 'val': bi, 'fmt': fmt, 'via': 'func',
+                             'opts': gen_json_opts(ro) if fmt == 'json' else {k: v for (k, v) in gen_yaml_opts(ro).items() if k != 'default_style'},
+                             'pathkind': ro.choice(PATHKINDS), 'passty': True, 'append': False},
+                            {'op': 'read', 'src': sink, 'via': 'func', 'pathkind': ro.choice(PATHKINDS)}]
     if cls == 'faulty':
         for op in ops:
             if rf.random() < 0.45:
@@ -249,8 +265,6 @@ def gen_faults(rf, op, knobs):
             kind = rf.choice(cands)
             if not writing and kind == 'ENOSPC':
                 kind = 'EIO'
-            if target == 's1' and kind == 'EINTR':
-                kind = 'short'
             if target in SINKS_PATH and 'open' in fk and rf.random() < 0.12:
                 out.append({'where': 'open', 'kind': rf.choice(['ENOENT', 'EACCES', 'EISDIR']), 'k': 1, 'sticky': False})
                 continue
